@@ -484,6 +484,19 @@ func c07one(rc *sim.RunCtx, hist []*TxSpec, target int, coldSchema, seqVal bool,
 		}
 	}
 	cmp(target, "after-retry")
+	// The statement promises the device configuration and the intent store after the retry, not the running mirror: a
+	// fault in its write-back (or a restart before it) may leave it behind until the next sync from the device, which this
+	// check does not run. The rest of the history is only a fair witness of hidden damage if it starts from the same mirror.
+	runningBehind := false
+	if s, err := takeSnap(w); err == nil {
+		if a, b := diffSets(refSnaps[target].config, s.config); len(a)+len(b) > 0 {
+			runningBehind = true
+			rc.Probe("running-mirror-behind-after-retry")
+		}
+	}
+	if runningBehind {
+		return true
+	}
 	for i := target + 1; i < len(hist); i++ {
 		time.Sleep(time.Second)
 		rc.AddSim(1)
@@ -496,7 +509,7 @@ func c07one(rc *sim.RunCtx, hist []*TxSpec, target int, coldSchema, seqVal bool,
 		}
 		Confirm(rc, w, hist[i].ID)
 	}
-	if target+1 < len(hist) {
+	if target+1 < len(hist) && !runningBehind {
 		cmp(len(hist)-1, "at-end")
 	}
 	_ = sort.Strings
